@@ -59,6 +59,36 @@ BUILT = {
          "Every entry of the six likely-subtags tables and four direction arrays is read from the compiled statics via the cfg(unic_locale_verif) re-export and compared with the JSON-derived dictionary: exactly one entry per key, correct value, strict order in the binary-search key order, well-formed canonical-case subtags, CLDR version; both generator binaries are re-run and their tokenised output compared with the checked-in files.",
          "Trusted: the JSON data files. Needs the add-only hook commit in /repo.",
          "DESIGN.md §4 C18"),
+ "C01": ("E1/E2 input spaces x 27 entry points + E4 argument/triple products + E3 histories, in an isolated child with watchdog",
+         "bounded-exhaustive enumeration of inputs, arguments, triples and mutation histories on the real code; the oracle is 'the call returns' (catch_unwind, per-case watchdog, child exit status)",
+         "Every input of the E1 token trees and E2 skeleton/edit neighbourhoods goes through every text-accepting entry point of both crates; every byte string of length <= 2 and boundary-class strings to length 9 are the argument of 15 getter/setter functions on three receivers; every (language, script, region) of the CLDR universe goes through maximize, minimize and character_direction; a fixed list of large inputs runs under the 5 s watchdog; every call of the E3 harnesses is guarded. A panic, hang, abort or stack overflow is a violation attributed to the case.",
+         "Hang = one case current for more than 5 s. Inputs longer than the depth bound and more than k edits from every skeleton are outside.",
+         "DESIGN.md §4 C01"),
+ "C04": ("E1/E2 parse route + E4 from_parts product + E3 mutation histories",
+         "bounded-exhaustive enumeration of values along three routes (accepted inputs, from_parts product, all reachable states of five mutation harnesses); to_string compared with an independent canonicaliser and re-recognised by an independent strict recogniser",
+         "On every accepted input of the input spaces, every element of the from_parts product (24 ids x 781 variant lists x 480 extension shapes) and every state reachable in the E3 harnesses, to_string() must be the model's canonical string, must be accepted by the strict recogniser as its own canonical form, canonicalize must return it and never lengthen the input.",
+         "Trusted: reference canonicaliser/recogniser (DESIGN §3). Values outside the harness menus and input bounds are not explored.",
+         "DESIGN.md §4 C04"),
+ "C05": ("E1/E2 parse route + E4 from_parts product + subtag domains + E3 mutation histories",
+         "bounded-exhaustive enumeration of values along three routes plus complete subtag domains; parse(to_string(x)) == x with the library's own equality (no reference model)",
+         "Every accepted input (Locale, LanguageIdentifier, ExtensionsMap), every from_parts product value, every E3 state, every Script (26^4 x 16 case masks), every Region, every 2-3 letter Language and reduced-alphabet longer subtags are serialised and re-parsed; the result must equal the original; canonicalize must be idempotent.",
+         "ExtensionsMap::other left empty as the property states.",
+         "DESIGN.md §4 C05"),
+ "C10": ("E3 explicit-state exploration of mutation histories (own BFS, cross-counted with stateright) + E4 argument sweep",
+         "explicit-state model checking: breadth-first exploration to exhaustion of all states reachable through the public mutators (finite argument menus with valid/boundary/invalid arguments), real value and set/map reference model in lock-step, invariants on every state and every transition",
+         "Five harnesses (language-id fields, -u-, -t-, -x-, and a cross harness with conversions and whole-field assignment) are explored to exhaustion from default() and from parser-built values; de-duplication on full equality of (implementation value, model value); after every call the result and the no-change-on-Err rule, in every state all getters, is_empty, has_*, to_string and a re-parse are compared with the model. The unique-state count is cross-checked against stateright's BFS over the same transition function. Argument validation and normalisation is additionally checked byte-exhaustively (every string of length <= 2, boundary-class strings to length 9) for 15 functions.",
+         "Trusted: the set/map reference model (DESIGN §3.2). Lists longer than the menus and more private tags than the cap are outside the bound.",
+         "DESIGN.md §4 C10"),
+ "C12": ("E3 route-independence table + E4 complete pair/triple enumeration over a value set collected from three routes",
+         "explicit-state exploration for route independence (one model value <-> one representation), then complete enumeration of ordered pairs and triples of a stratified value set for ==/hash/cmp/&str laws",
+         "All states of the E3 harnesses, accepted inputs of the token tree to depth 3 and a stride of the from_parts product form the value set R. Reaching one model value with two different representations (within a search or across routes) is a violation. On all ordered pairs of a stratified subset: == iff equal to_string, equal => equal hash and Ordering::Equal, antisymmetry, id order = (language, script, region, variants) with absent first, == &str iff canonical text; transitivity on all ordered triples of a 200-value subset; subtag == &str against all subtag texts of R.",
+         "Fixed hasher: DefaultHasher::new(). ExtensionsMap::other left empty.",
+         "DESIGN.md §4 C12"),
+ "C17": ("E1/E2 parse route + E4 from_parts product + byte-string subtag spaces + E3 mutation histories",
+         "bounded-exhaustive enumeration of values along three routes for from_parts(into_parts(x)) == x, complete subtag byte-string spaces for the integer round trip, sorting-based injectivity over complete subtag domains",
+         "from_parts(into_parts(x)) == x on every accepted input, every from_parts product value (where it must also equal parsing the joined string for every order/duplication of up to 4 variants) and every E3 state; integer form -> from_raw_unchecked -> equal subtag with intact text on every valid subtag of the C15 spaces; distinct subtags <-> distinct integers on all 2-3 letter languages, all scripts, all regions, all 4-character variants and reduced-alphabet longer ones.",
+         "from_raw_unchecked is used only on integers obtained from real subtags (DESIGN §6.4).",
+         "DESIGN.md §4 C17"),
 }
 
 def main():
@@ -98,6 +128,8 @@ def main():
         "engines": [
             {"name": "E1", "path": "/verif/mc/mc/src/spaces.rs", "kind_free_text": "depth-bounded exhaustive token-sequence tree over class alphabets (odometer, block scheduler, watchdog)"},
             {"name": "E2", "path": "/verif/mc/mc/src/spaces.rs", "kind_free_text": "deviation-bounded exploration: model-generated skeletons and their complete k-edit neighbourhoods"},
+            {"name": "E3", "path": "/verif/mc/mc/src/props/history.rs", "kind_free_text": "explicit-state exploration of mutation histories: level-synchronised BFS to exhaustion over (real value, model value) pairs, exact de-duplication, route-independence table; unique-state count cross-checked with stateright 0.31 spawn_bfs"},
+            {"name": "E4", "path": "/verif/mc/mc/src/props/", "kind_free_text": "complete enumeration of finite product domains (CLDR universe, table entries, byte-string products, identifier pairs, from_parts product)"},
             {"name": "refmodel", "path": "/verif/mc/refmodel/src/lib.rs", "kind_free_text": "reference models (UTS #35 recogniser with zones, value model, likely-subtags dictionary, direction data)"},
         ],
         "checks": checks,
